@@ -152,6 +152,10 @@ func checkC02(c *Ctx) {
 	for _, d := range escapeOffsetDocs(r, c.Thorough()) {
 		add("escape-offset", d)
 	}
+	// a long string arriving after other keys and strings (string-buffer growth)
+	for _, d := range longStringDocs(r) {
+		add("long-string-after-others", d)
+	}
 	// positional sweep
 	seeds := []string{`{"a":"x","a":"y","b":[1,2,{"c":null}]}`, `["é",-0.0,18446744073709551615,{"":""}]`}
 	for _, sd := range seeds {
